@@ -117,6 +117,13 @@ def build(cell):
             ml = MediaList(mediaText="screen, print")
             ml[0] = "all"           # 'all, print': only item assignment produces this list
             return ml, None, None
+        # objects that live outside any sheet and carry their own namespaces
+        if c == "selector":
+            return css.Selector(("p|x[p|att] > *|y", {"p": "u"})), None, None
+        if c == "selectorlist":
+            return css.SelectorList(selectorText=("p|x, y", {"p": "u"})), None, None
+        if c == "stylerule":
+            return css.CSSStyleRule(selectorText=("p|x, y", {"p": "u"}), style="left: 0"), None, None
         return None
     if ro and attach == "insheet":
         return None     # read-only objects are created through the constructor flag
